@@ -60,11 +60,14 @@ META["C11"] = dict(engine="orch", note=ORCH_NOTE + " The built-in DKG backends' 
     text="Proved on the session model for every history: cancellation makes the API call return from every state, no step panics, "
          "failed preconditions / synchronisations / backend errors are returned at once, nothing stays registered; upstream defects "
          "(dropped prepareSigning error, hung pre-signing failure, KeyGen continuing after timed-out waits) repaired; tied to the code by "
-         "histories with every cut point (before sync, at the gate, in the backend) cancelled.")
+         "histories with every cut point (before sync, at the gate, in the backend) cancelled, by the backend cancellation matrix, and by "
+         "a lone real Scheme (real disc.Member / msg.Box) called with contexts that are already over or end at once (child process per case).")
 META["C12"] = dict(engine="orch", note=ORCH_NOTE,
     text="No-residue, re-admission, refusal of a concurrent same-topic session, traffic filtering and non-interference proved as an "
          "inductive ownership invariant over arbitrary histories of KeyGen/Sign/cancel/late-continuation/inject; upstream residue defects "
-         "repaired; tied to the code by executing such histories on a real Scheme and comparing API results, table keys and reached instances.")
+         "repaired; tied to the code by executing such histories on a real Scheme and comparing API results, table keys and reached instances; "
+         "the model's atomic admission step is checked on the code by K concurrent calls for one session name held together inside the "
+         "application's synchroniser factory (exactly one admitted).")
 
 META["C14"] = dict(engine="box", note=BOX_NOTE + " Concurrent half: lock-granular small-step model Box/Sync.v (goroutines = scripts of calls with "
     "a program counter between lock boundaries; the draining table) tied to the real Box by a cooperative scheduler at yield points placed "
